@@ -219,7 +219,7 @@ def _sample(scs, cap, rnd):
     return head + tail[: cap - len(head)]
 
 
-def run_check(prop, tier, replay, families, teeth=(), cap_quick=90, cap_thorough=100000, sim_thorough=400,
+def run_check(prop, tier, replay, families, teeth=(), cap_quick=60, cap_thorough=400, sim_thorough=200,
               expect_pcs=(), extra_assumptions=()):
     """families: list of fam() dicts (with optional key 'asbuilt': deviations to generate/validate with).
     teeth: list of (fam, invariant) model runs that are EXPECTED to violate `invariant` (sanity of the invariants
